@@ -813,6 +813,34 @@ pub fn step_nocheck<const N: usize>(g: &mut Sodg<N>, m: &mut Model, op: &Op) -> 
     r
 }
 
+/// Which further read-only calls follow every step of a history (bit set from the probes of the
+/// running exploration: what a check looks at in every state, it also asks of the very object the
+/// next call is made on - a save() before the data() before the next save(), an export before the
+/// collection before the next export).
+static OBSERVE: std::sync::atomic::AtomicU8 = std::sync::atomic::AtomicU8::new(0);
+const OBS_SAVE: u8 = 1;
+const OBS_EXPORTS: u8 = 2;
+const OBS_TEXTS: u8 = 4;
+const OBS_SLICE: u8 = 8;
+
+pub fn set_observe_flags(cfg: &HxCfg) {
+    let p = &cfg.probes;
+    let mut f = 0;
+    if (p.reload || p.cuts || cfg.prop == "C08") && cfg.cap <= 600 {
+        f |= OBS_SAVE;
+    }
+    if p.exports {
+        f |= OBS_EXPORTS;
+    }
+    if p.texts {
+        f |= OBS_TEXTS;
+    }
+    if p.slice {
+        f |= OBS_SLICE;
+    }
+    OBSERVE.store(f, std::sync::atomic::Ordering::Relaxed);
+}
+
 /// keys/len/is_empty, kids of every present vertex, kid for every label the model knows there
 pub fn observe<const N: usize>(g: &Sodg<N>, m: &Model) {
     let _ = guarded(|| (g.keys().len(), g.len(), g.is_empty()));
@@ -820,6 +848,24 @@ pub fn observe<const N: usize>(g: &Sodg<N>, m: &Model) {
         let _ = guarded(|| kids_of(g, *v).len());
         for (l, _) in &mv.edges {
             let _ = guarded(|| g.kid(*v, lab(*l)));
+        }
+    }
+    let f = OBSERVE.load(std::sync::atomic::Ordering::Relaxed);
+    if f & OBS_SAVE != 0 {
+        // to the path the next save+load goes through
+        let _ = guarded(|| g.save(&crate::real::thread_file("reload")).is_ok());
+    }
+    if f & OBS_EXPORTS != 0 {
+        let _ = guarded(|| (g.to_xml().map(|t| t.len()).unwrap_or(0), g.to_dot().len()));
+    }
+    if f & (OBS_TEXTS | OBS_SLICE) != 0 {
+        if let Some(v) = m.present.keys().next() {
+            if f & OBS_TEXTS != 0 {
+                let _ = guarded(|| (g.inspect(*v).map(|t| t.len()).unwrap_or(0), g.v_print(*v).map(|t| t.len()).unwrap_or(0), format!("{g:?}").len()));
+            }
+            if f & OBS_SLICE != 0 && m.reachable_present(*v).is_some() {
+                let _ = guarded(|| g.slice(*v).map(|s| s.len()).unwrap_or(0));
+            }
         }
     }
 }
@@ -920,6 +966,9 @@ pub fn step<const N: usize>(labels: &[u8], g: &mut Sodg<N>, m: &mut Model, op: &
         (_, Err(_)) => {}
     }
     let f = check_transition(labels, &m0, g0.as_ref(), op, &res, g, m, &ex, &errs);
+    if f.is_empty() {
+        observe(g, m);
+    }
     (res, f)
 }
 
@@ -1071,6 +1120,7 @@ fn history_of(roots: &[Vec<Op>], trail: &[Vec<(u32, Op)>], level: usize, idx: u3
 fn run_n<const N: usize>(cfg: &HxCfg) -> HxResult {
     let t0 = Instant::now();
     crate::inflight::start_watchdog();
+    set_observe_flags(cfg);
     let ops = cfg.ops();
     let mut res = HxResult { cfg: cfg.describe(), ..Default::default() };
     let mut seen: FxHashSet<Box<[u8]>> = FxHashSet::default();
